@@ -113,7 +113,7 @@ def run(tier):
                                         if not b["cleanup"] and b["term"]["k"] == "switch" and cfg.self_field_of_switch(host, bi) == [ent["unless"]]:
                                             m, other = cfg.switch_edge_blocks(host, bi)
                                             if 0 in m and cfg.dominated_by_edge(host, w["use"]["bb"], bi, m[0]):
-                                                esc = None if m[0] == w["use"]["bb"] else cfg.flag_reach(host, m[0], cfg.return_blocks(host), avoid={w["use"]["bb"]} | cfg.err_sink_blocks(host))
+                                                esc = cfg.escapes_without_edges(host, 0, {w["use"]["bb"]}, forbidden_edges={(bi, other)}, avoid=cfg.err_sink_blocks(host))
                                                 g = esc is None
                                     found = found and g
                                 else:
